@@ -4,6 +4,7 @@
 package c20
 
 import (
+	"bytes"
 	"context"
 	"crypto/sha256"
 	"encoding/hex"
@@ -12,6 +13,7 @@ import (
 	"math/rand"
 	"net/http"
 	"net/http/httptest"
+	"os"
 	"strings"
 	"sync"
 	"sync/atomic"
@@ -290,6 +292,46 @@ func Run(d *fw.Driver, res *fw.Result, seed int64, thorough bool) error {
 
 var errHang = fmt.Errorf("a reader-carrying call hangs")
 
+// mkSource wraps the caller's byte sequence in different kinds of io.Reader: what the handler must see is
+// what the reader yields *from where the caller left it*, whatever else the reader can do (seek, report
+// its length).  kind 0: in-memory; 1: a file positioned after a header the caller has already read;
+// 2: a section reader read part-way (seekable, length unknown to net/http); 3: a pipe.
+func mkSource(raw []byte, kind int) (io.Reader, func()) {
+	const hdr = "HDR:0123456789ABCDEF"
+	switch kind {
+	case 1:
+		f, err := os.CreateTemp("", "c20-*")
+		if err != nil {
+			break
+		}
+		f.WriteString(hdr)
+		f.Write(raw)
+		f.Seek(0, io.SeekStart)
+		io.ReadFull(f, make([]byte, len(hdr))) // the caller consumed the header itself
+		return f, func() { f.Close(); os.Remove(f.Name()) }
+	case 2:
+		sr := io.NewSectionReader(bytes.NewReader(append([]byte(hdr), raw...)), 0, int64(len(hdr)+len(raw)))
+		io.ReadFull(sr, make([]byte, len(hdr)))
+		return sr, func() {}
+	case 3:
+		pr, pw := io.Pipe()
+		go func() {
+			for off := 0; off < len(raw); off += 1000 {
+				end := off + 1000
+				if end > len(raw) {
+					end = len(raw)
+				}
+				if _, err := pw.Write(raw[off:end]); err != nil {
+					return
+				}
+			}
+			pw.Close()
+		}()
+		return pr, func() { pr.Close() }
+	}
+	return strings.NewReader(string(raw)), func() {}
+}
+
 func runGroup(d *fw.Driver, res *fw.Result, r *rand.Rand, e *envT, tr string, ln, pattern int, order string, conc int) error {
 	e.pushWait, e.rpcWait = 0, 0
 	switch order {
@@ -317,17 +359,19 @@ func runGroup(d *fw.Driver, res *fw.Result, r *rand.Rand, e *envT, tr string, ln
 		wg.Add(1)
 		go func(i int) {
 			defer wg.Done()
-			ctx, cancel := context.WithTimeout(context.Background(), 20*time.Second)
+			ctx, cancel := context.WithTimeout(context.Background(), 8*time.Second)
 			defer cancel()
-			results[i].d, results[i].err = e.cl.Consume(ctx, strings.NewReader(string(results[i].raw)), pattern, results[i].c.Len)
+			src, cleanup := mkSource(results[i].raw, (i+pattern+ln)%4)
+			defer cleanup()
+			results[i].d, results[i].err = e.cl.Consume(ctx, src, pattern, results[i].c.Len)
 		}(i)
 	}
 	done := make(chan struct{})
 	go func() { wg.Wait(); close(done) }()
 	select {
 	case <-done:
-	case <-time.After(30 * time.Second):
-		res.Add(fw.Finding{Kind: "monitor", Signature: fmt.Sprintf("reader call hangs pattern=%d order=%s", pattern, order), Detail: fmt.Sprintf("a reader-carrying call (%d concurrent) did not return within 30s", conc), Case: results[0].c})
+	case <-time.After(12 * time.Second):
+		res.Add(fw.Finding{Kind: "monitor", Signature: fmt.Sprintf("reader call hangs pattern=%d order=%s", pattern, order), Detail: fmt.Sprintf("a reader-carrying call (%d concurrent) did not return within 12s", conc), Case: results[0].c})
 		return errHang
 	}
 	// every upload request completes once its handler has consumed (or closed) the stream
